@@ -18,8 +18,9 @@ import (
 func init() {
 	register(&Suite{Name: "tracee2e", Gen: genTraceE2E, Exec: execTraceE2E, Parallel: 8,
 		Rule: "OTLP export requests of 1-5 ResourceSpans x 1-3 ScopeSpans (resources with / without service.name, nil Resource, int-valued / repeated / value-less service.name; " +
-			"status nil/UNSET/OK/ERROR/unknown; attributes of every AnyValue kind incl. the rejected ones and keys that collide with span fields; ids of 1..16 bytes, empty ids; end<start) " +
-			"split over 1-4 requests in any order, re-sent requests and spans (duplicate span ids), documents without required fields posted to index traces; " +
+			"status nil/UNSET/OK/ERROR/unknown; attributes of every AnyValue kind incl. bytes and the empty value and keys that collide with span fields; ids of 1..16 bytes, empty ids; end<start) " +
+			"split over 1-4 requests in any order, re-sent requests and spans (duplicate span ids, identical and conflicting), documents posted to index traces through the ES bulk API " +
+			"without required fields or with a duration that is not a uint64 (2^64 as float, negative, fractional, a string) next to OTLP spans; " +
 			"span forests (chains, stars, random trees, several roots, missing parents, cycles) of 1..60 spans with page sizes 1..12 so that every trace spans several result pages " +
 			"(page-size hook in both paging loops), a few traces of 1001..1300 spans with the real page size (thorough: more, up to 2600), 45..130 traces per dataset for the trace listing, " +
 			">100 spans for the dependency graph; every case on a fresh engine process; all four views + the stored events compared with the Lean model and judged by the statement"})
@@ -75,6 +76,7 @@ type teStored struct { // a stored record as read back
 	pid, svc, name, status *string
 	start, end, dur        string
 	tags                   string
+	durStr                 bool // the duration came back as a JSON string
 }
 
 func teStrp(m map[string]interface{}, k string) *string {
@@ -99,6 +101,7 @@ func teOpt(p *string) string {
 func teStoredOf(m map[string]interface{}) teStored {
 	e := teStored{start: teNumText(m["start_time"]), end: teNumText(m["end_time"]), dur: teNumText(m["duration"]),
 		pid: teStrp(m, "parent_span_id"), svc: teStrp(m, "service"), name: teStrp(m, "name"), status: teStrp(m, "status")}
+	_, e.durStr = m["duration"].(string)
 	if p := teStrp(m, "trace_id"); p != nil {
 		e.trace = *p
 	}
@@ -371,13 +374,26 @@ func teDepText(dep map[string]map[string]int) string {
 
 var teCollide = map[string]bool{"span_id": true, "parent_span_id": true, "service": true, "name": true, "start_time": true, "end_time": true, "duration": true, "status": true}
 
-func teSpanRejected(s teSpan) bool {
+// the span carries a bytes-valued attribute or an AnyValue with no value set (both legal OTLP; refused with the
+// whole span before the repair c12-10)
+func teSpanBytesOrEmpty(s teSpan) bool {
 	for _, a := range s.attrs {
 		if a.kind == 'y' || a.kind == 'z' {
 			return true
 		}
 	}
 	return false
+}
+
+const teSigBytesOrEmpty = "trace-ingest/bytes-or-empty-attribute-rejects-the-span"
+
+// the stored `duration` is not a uint64: the record does not unmarshal into the span structs of the views
+func teUnreadable(e teStored) bool {
+	if e.dur == "!" {
+		return false
+	}
+	_, err := strconv.ParseUint(e.dur, 10, 64)
+	return err != nil || e.durStr
 }
 
 // the first attribute that cannot be converted is a KeyValue without AnyValue
@@ -416,6 +432,8 @@ func teSpanCollides(s teSpan) bool {
 }
 
 const teErrStatus = "STATUS_CODE_ERROR"
+const teSigRedRate = "trace-red/rate-not-per-second"
+const teSigRedelivered = "trace-search/span-count-includes-redelivered-duplicates"
 
 type teFull struct { // a stored record that has every field the views need, as the statement sees a span
 	trace, sid, pid, svc, name, status string
@@ -429,7 +447,7 @@ func teFullOf(e teStored) (teFull, bool) {
 	st, e1 := strconv.ParseUint(e.start, 10, 64)
 	en, e2 := strconv.ParseUint(e.end, 10, 64)
 	du, e3 := strconv.ParseUint(e.dur, 10, 64)
-	if e1 != nil || e2 != nil || e3 != nil || (en >= st && du != en-st) || (en < st && du != 0) {
+	if e1 != nil || e2 != nil || e3 != nil || e.durStr || (en >= st && du != en-st) || (en < st && du != 0) {
 		return teFull{}, false // (a span that ends before it starts is stored with duration 0)
 	}
 	return teFull{e.trace, e.sid, *e.pid, *e.svc, *e.name, *e.status, st, en, du}, true
@@ -459,8 +477,8 @@ func teJudge(op *teOp, w *teWorkerOut, v *teView) (fails []PropFail, tags []stri
 		k := key{e.trace, e.sid, teOpt(e.pid), teOpt(e.name), e.start, e.end, teOpt(e.status)}
 		storedBy[k] = append(storedBy[k], e)
 	}
-	wantStored := 0
-	wrapSent := false // some accepted OTLP span ends before it starts
+	wantStored, yzLost := 0, 0
+	wrapSent := false // some accepted OTLP span that ends before it starts was stored with a wrapped duration
 	for ri, rq := range op.reqs {
 		if ri < len(w.Acks) && w.Acks[ri].Panic != "" {
 			if teReqHasNoValue(rq) {
@@ -474,19 +492,23 @@ func teJudge(op *teOp, w *teWorkerOut, v *teView) (fails []PropFail, tags []stri
 			wantStored += len(rq.ev)
 			continue
 		}
-		sent, rej := 0, 0
+		sent, yz := 0, 0
 		for _, rs := range rq.res {
 			own, ownNamed := teResService(rs.spec)
 			for _, sc := range rs.scopes {
 				for _, s := range sc {
 					sent++
-					if teSpanRejected(s) {
-						rej++
-						continue
-					}
 					wantStored++
 					k := key{s.trace, s.sid, s.pid, s.name, strconv.FormatUint(s.start, 10), strconv.FormatUint(s.end, 10), teStatusString(s.status)}
 					cands := storedBy[k]
+					if teSpanBytesOrEmpty(s) {
+						yz++
+						if len(cands) == 0 {
+							yzLost++
+							fail(teSigBytesOrEmpty, "span %s of trace %s (request %d) carries a bytes-valued attribute or an AnyValue with no value set (%s) — both are legal OTLP values — and is not stored: the whole span was refused", s.sid, s.trace, ri, teAttrKinds(s))
+							continue
+						}
+					}
 					if teSpanCollides(s) {
 						ok := false
 						for _, c := range cands {
@@ -500,9 +522,9 @@ func teJudge(op *teOp, w *teWorkerOut, v *teView) (fails []PropFail, tags []stri
 						continue
 					}
 					if s.end < s.start {
-						wrapSent = true
 						for _, c := range cands {
 							if _, err := strconv.ParseInt(c.dur, 10, 64); err != nil {
+								wrapSent = true
 								fail("trace-ingest/end-before-start-duration-wraps", "span %s of trace %s ends %d ns before it starts; stored duration %s (the unsigned difference wrapped around)", s.sid, s.trace, s.start-s.end, c.dur)
 							}
 						}
@@ -538,12 +560,11 @@ func teJudge(op *teOp, w *teWorkerOut, v *teView) (fails []PropFail, tags []stri
 		if ri < len(w.Acks) {
 			a := w.Acks[ri]
 			switch {
-			case rej == 0 && (a.Status != 200 || a.Rejected != 0):
-				fail("trace-ingest/ack", "request %d: %d spans, none unsupported, answered %d rejected=%d", ri, sent, a.Status, a.Rejected)
-			case rej > 0 && rej < sent && (a.Status != 200 || a.Rejected != int64(rej)):
-				fail("trace-ingest/ack", "request %d: %d of %d spans carry an unsupported attribute value, answered %d rejected=%d", ri, rej, sent, a.Status, a.Rejected)
-			case rej > 0 && rej == sent && a.Status == 200 && a.Rejected != int64(rej):
-				fail("trace-ingest/ack", "request %d: every span unsupported, answered %d rejected=%d", ri, a.Status, a.Rejected)
+			case a.Status == 200 && a.Rejected == 0:
+			case yz > 0 && ((a.Status == 200 && a.Rejected == int64(yz)) || (a.Status != 200 && yz == sent)):
+				fail(teSigBytesOrEmpty, "request %d: %d of its %d spans carry a bytes-valued attribute or an AnyValue with no value set — both are legal OTLP values — answered %d rejected=%d", ri, yz, sent, a.Status, a.Rejected)
+			default:
+				fail("trace-ingest/ack", "request %d: %d well-formed spans, answered %d rejected=%d", ri, sent, a.Status, a.Rejected)
 			}
 		}
 	}
@@ -553,7 +574,7 @@ func teJudge(op *teOp, w *teWorkerOut, v *teView) (fails []PropFail, tags []stri
 	}
 	if w.EventErr != "" {
 		fail("trace-ingest/readback-error", "%s", w.EventErr)
-	} else if len(v.stored) != wantStored {
+	} else if len(v.stored) != wantStored && !(yzLost > 0 && len(v.stored) == wantStored-yzLost) {
 		fail("trace-ingest/event-count", "%d spans/documents accepted, %d events stored", wantStored, len(v.stored))
 	}
 
@@ -574,6 +595,10 @@ func teJudge(op *teOp, w *teWorkerOut, v *teView) (fails []PropFail, tags []stri
 		nroots   int
 		rootRec  teFull
 		allFull  bool
+		// the statement's span count of the trace: a span delivered twice is ONE span.  Records that share a span id
+		// but not the status (conflicting duplicates) may count once or once per status.
+		idsAll, pairsAll int
+		errAny, errEvery int // span ids with SOME / with ONLY records of status ERROR
 	}
 	info := map[string]*tinfo{}
 	for t, recs := range byTrace {
@@ -581,7 +606,15 @@ func teJudge(op *teOp, w *teWorkerOut, v *teView) (fails []PropFail, tags []stri
 		info[t] = ti
 		conflict := false
 		rootKeys := map[string]bool{}
+		idSeen, pairSeen, idErr, idNonErr := map[string]bool{}, map[string]bool{}, map[string]bool{}, map[string]bool{}
 		for _, e := range recs {
+			idSeen[e.sid] = true
+			pairSeen[teOpt(e.status)+"/"+e.sid] = true
+			if e.status != nil && *e.status == teErrStatus {
+				idErr[e.sid] = true
+			} else {
+				idNonErr[e.sid] = true
+			}
 			if e.status != nil && *e.status == teErrStatus {
 				ti.errRecs++
 			}
@@ -606,6 +639,12 @@ func teJudge(op *teOp, w *teWorkerOut, v *teView) (fails []PropFail, tags []stri
 		}
 		if len(rootKeys) > 1 {
 			ti.rootsOK = false
+		}
+		ti.idsAll, ti.pairsAll, ti.errAny = len(idSeen), len(pairSeen), len(idErr)
+		for id := range idErr {
+			if !idNonErr[id] {
+				ti.errEvery++
+			}
 		}
 		ti.distinct = len(ti.spans)
 		for _, f := range ti.spans {
@@ -781,11 +820,19 @@ func teJudge(op *teOp, w *teWorkerOut, v *teView) (fails []PropFail, tags []stri
 		if r.ServiceName != f.svc || r.OperationName != f.name {
 			fail("trace-search/root-service-or-operation", "trace %s is listed with service %q operation %q, its root span %s has %q %q", t, r.ServiceName, r.OperationName, f.sid, f.svc, f.name)
 		}
-		if r.SpanCount < ti.distinct || r.SpanCount > ti.records {
-			fail("trace-search/span-count", "trace %s is listed with %d spans; %d records = %d distinct spans are stored", t, r.SpanCount, ti.records, ti.distinct)
+		switch {
+		case r.SpanCount >= ti.idsAll && r.SpanCount <= ti.pairsAll:
+		case r.SpanCount > ti.pairsAll && r.SpanCount <= ti.records:
+			fail(teSigRedelivered, "trace %s is listed with %d spans; its %d stored records are %d distinct spans (some were delivered more than once), and its span tree shows each of them once", t, r.SpanCount, ti.records, ti.idsAll)
+		default:
+			fail("trace-search/span-count", "trace %s is listed with %d spans; %d records = %d distinct spans are stored", t, r.SpanCount, ti.records, ti.idsAll)
 		}
-		if ti.allFull && (r.SpanErrorsCount < ti.errDist || r.SpanErrorsCount > ti.errRecs) {
-			fail("trace-search/error-span-count", "trace %s is listed with %d error spans; %d records = %d distinct spans with status ERROR are stored", t, r.SpanErrorsCount, ti.errRecs, ti.errDist)
+		switch {
+		case r.SpanErrorsCount >= ti.errEvery && r.SpanErrorsCount <= ti.errAny:
+		case r.SpanErrorsCount > ti.errAny && r.SpanErrorsCount <= ti.errRecs:
+			fail(teSigRedelivered, "trace %s is listed with %d error spans; its %d stored records with status ERROR are %d distinct spans (some were delivered more than once)", t, r.SpanErrorsCount, ti.errRecs, ti.errAny)
+		default:
+			fail("trace-search/error-span-count", "trace %s is listed with %d error spans; %d records = %d distinct spans with status ERROR are stored", t, r.SpanErrorsCount, ti.errRecs, ti.errAny)
 		}
 		if in, sure := inWindow(f); sure && !in {
 			fail("trace-search/trace-outside-window-listed", "trace %s: root span runs %d..%d ns, outside the requested window, and is listed", t, f.start, f.end)
@@ -807,11 +854,28 @@ func teJudge(op *teOp, w *teWorkerOut, v *teView) (fails []PropFail, tags []stri
 		}
 	}
 
-	// ---- dependency graph and RED: only datasets without duplicate span ids (the statement counts SPANS)
+	// ---- dependency graph and RED: only datasets without duplicate span ids (the statement counts SPANS).
+	// A stored document whose duration is not a uint64 is not a span (no view can read it): it is left out, a
+	// partial view for ITS trace — every other span of the window must still be counted.
 	ids := map[string]int{}
 	allFull := true
+	unreadable := 0
 	var full []teFull
+	type spanLike struct{ sid, pid, svc string }
+	var asRead []spanLike // every readable record the way the collectors unmarshal it (absent field = "")
 	for _, e := range v.stored {
+		if teUnreadable(e) {
+			unreadable++
+			continue
+		}
+		sl := spanLike{sid: e.sid}
+		if e.pid != nil {
+			sl.pid = *e.pid
+		}
+		if e.svc != nil {
+			sl.svc = *e.svc
+		}
+		asRead = append(asRead, sl)
 		f, ok := teFullOf(e)
 		if !ok {
 			allFull = false
@@ -826,7 +890,46 @@ func teJudge(op *teOp, w *teWorkerOut, v *teView) (fails []PropFail, tags []stri
 			uniq = false
 		}
 	}
-	if uniq && len(full) > 0 {
+	for _, e := range v.stored {
+		if _, err := strconv.ParseUint(e.dur, 10, 64); err == nil && e.durStr {
+			fail("trace-views/string-in-duration-column-hides-every-span-of-the-block", "span %s of trace %s was stored with the numeric duration %s and is returned with the duration as a JSON string, because another document of the block carries a string in that column: none of the views can read it (%d of %d stored records are unreadable)", e.sid, e.trace, e.dur, unreadable, len(v.stored))
+			break
+		}
+	}
+	blanked := false
+	if unreadable > 0 && w.Dep == nil {
+		blanked = true
+		fail("trace-dep/unreadable-record-blanks-the-window", "%d of the %d stored records carry a duration that is not a uint64 (documents of another protocol in index traces): no dependency graph at all and %d RED rows for the WHOLE window, although %d records are proper spans", unreadable, len(v.stored), len(w.Red), len(asRead))
+	}
+	// the rate of every RED row: entry spans of the service per second over the 5-minute window.  Which spans are entry
+	// spans when span ids repeat is the code's choice (the LAST record of an id in result order names its service).
+	if !blanked && len(w.Red) > 0 {
+		svcOfID := map[string]string{}
+		for _, sl := range asRead {
+			svcOfID[sl.sid] = sl.svc
+		}
+		entries := map[string]int{}
+		for _, sl := range asRead {
+			if sl.pid != "" {
+				if ps, ok := svcOfID[sl.pid]; ok && ps == sl.svc {
+					continue
+				}
+			}
+			entries[sl.svc]++
+		}
+		for _, m := range w.Red {
+			svc, _ := m["service"].(string)
+			cnt := entries[svc]
+			if cnt == 0 {
+				continue
+			}
+			got := teF64Bits(m["rate"])
+			if got != f64bits(float64(cnt)/300) && got == f64bits(float64(cnt)/60) {
+				fail(teSigRedRate, "service %q: %d entry spans in the 5-minute window, rate %s = %d/60; the rate per second (the unit the service health page shows) is %d/300 = %s (float64 bits)", svc, cnt, got, cnt, cnt, f64bits(float64(cnt)/300))
+			}
+		}
+	}
+	if uniq && len(full) > 0 && !blanked {
 		svcOf := map[string]string{}
 		for _, f := range full {
 			svcOf[f.sid] = f.svc
@@ -890,15 +993,132 @@ func teJudge(op *teOp, w *teWorkerOut, v *teView) (fails []PropFail, tags []stri
 				fail("trace-red/rows", "%d services have entry spans, %d RED rows were written (page size %d)", len(by), len(w.Red), op.page)
 			}
 			for svc, a := range by {
-				exp := fmt.Sprintf("%s/%s/%s/%s/%s/%s", f64bits(float64(a.cnt)/60), f64bits(float64(a.errs)/float64(a.cnt)*100), f64bits(refPercentile(a.durs, 50)),
+				rest := fmt.Sprintf("/%s/%s/%s/%s/%s", f64bits(float64(a.errs)/float64(a.cnt)*100), f64bits(refPercentile(a.durs, 50)),
 					f64bits(refPercentile(a.durs, 90)), f64bits(refPercentile(a.durs, 95)), f64bits(refPercentile(a.durs, 99)))
-				if g, ok := got[svc]; ok && g != exp {
+				exp := f64bits(float64(a.cnt)/300) + rest
+				g, ok := got[svc]
+				switch {
+				case !ok || g == exp:
+				case g == f64bits(float64(a.cnt)/60)+rest:
+					fail(teSigRedRate, "service %q: %d entry spans in the 5-minute window, RED row %s: the rate is %d/60; the rate per second is %d/300 = %s (float64 bits)", svc, a.cnt, g, a.cnt, a.cnt, f64bits(float64(a.cnt)/300))
+				default:
 					fail("trace-red/rows", "service %q: RED row %s, its %d entry spans give %s (rate/error%%/p50/p90/p95/p99 as float64 bits; page size %d)", svc, g, a.cnt, exp, op.page)
 				}
 			}
 		}
 	}
+	// ---- spans delivered more than once in the dependency graph and in RED (known finding): when every span id that
+	// occurs more than once occurs with IDENTICAL records only, the statement's spans are the distinct records
+	if !uniq && allFull && len(full) > 0 && !blanked && w.Dep != nil {
+		first := map[string]teFull{}
+		identical := true
+		var distinct []teFull
+		for _, f := range full {
+			if old, ok := first[f.sid]; ok {
+				if old != f {
+					identical = false
+				}
+				continue
+			}
+			first[f.sid] = f
+			distinct = append(distinct, f)
+		}
+		if identical {
+			gotDep := teDepText(w.Dep)
+			gotRed := map[string]string{}
+			for _, m := range w.Red {
+				svc, _ := m["service"].(string)
+				gotRed[svc] = fmt.Sprintf("%s/%s/%s/%s/%s/%s", teF64Bits(m["rate"]), teF64Bits(m["error_rate"]), teF64Bits(m["p50"]), teF64Bits(m["p90"]), teF64Bits(m["p95"]), teF64Bits(m["p99"]))
+			}
+			sameRows := func(a, b map[string]string) bool {
+				if len(a) != len(b) {
+					return false
+				}
+				for k, v := range a {
+					if b[k] != v {
+						return false
+					}
+				}
+				return true
+			}
+			for _, div := range []float64{300, 60} {
+				depD, redD, parentsOK := teExpectDepRed(distinct, div)
+				depR, redR, _ := teExpectDepRed(full, div)
+				if gotDep != depD && gotDep == depR {
+					fail("trace-dep/redelivered-span-counted-again", "%d stored records are %d distinct spans (the others are identical re-deliveries): dependency graph %s counts the records, the cross-service parent-child span pairs are %s", len(full), len(distinct), trunc(gotDep, 150), trunc(depD, 150))
+				}
+				if parentsOK && len(w.Red) == len(gotRed) && !sameRows(gotRed, redD) && sameRows(gotRed, redR) {
+					fail("trace-red/redelivered-span-counted-again", "%d stored records are %d distinct spans (the others are identical re-deliveries): the RED rows are those of the records (a re-delivered entry span counts twice in rate, error rate and percentiles), not those of the spans", len(full), len(distinct))
+				}
+			}
+		}
+	}
 	return fails, tags
+}
+
+// the dependency graph and the RED rows (rate = count / div) the statement gives for spans with unique ids
+func teExpectDepRed(spans []teFull, div float64) (dep string, red map[string]string, allParents bool) {
+	svcOf := map[string]string{}
+	for _, f := range spans {
+		svcOf[f.sid] = f.svc
+	}
+	want := map[string]map[string]int{}
+	allParents = true
+	for _, f := range spans {
+		if f.pid == "" {
+			continue
+		}
+		ps, ok := svcOf[f.pid]
+		if !ok {
+			allParents = false
+			continue
+		}
+		if ps != f.svc {
+			if want[ps] == nil {
+				want[ps] = map[string]int{}
+			}
+			want[ps][f.svc]++
+		}
+	}
+	type agg struct {
+		cnt, errs int
+		durs      []uint64
+	}
+	by := map[string]*agg{}
+	for _, f := range spans {
+		if ps, ok := svcOf[f.pid]; f.pid != "" && ok && ps == f.svc {
+			continue
+		}
+		a := by[f.svc]
+		if a == nil {
+			a = &agg{}
+			by[f.svc] = a
+		}
+		a.cnt++
+		if f.status == teErrStatus {
+			a.errs++
+		}
+		a.durs = append(a.durs, f.dur/1000000)
+	}
+	red = map[string]string{}
+	for svc, a := range by {
+		red[svc] = fmt.Sprintf("%s/%s/%s/%s/%s/%s", f64bits(float64(a.cnt)/div), f64bits(float64(a.errs)/float64(a.cnt)*100), f64bits(refPercentile(a.durs, 50)),
+			f64bits(refPercentile(a.durs, 90)), f64bits(refPercentile(a.durs, 95)), f64bits(refPercentile(a.durs, 99)))
+	}
+	return teDepText(want), red, allParents
+}
+
+func teAttrKinds(s teSpan) string {
+	var ks []string
+	for _, a := range s.attrs {
+		switch a.kind {
+		case 'y':
+			ks = append(ks, a.key+"=bytes")
+		case 'z':
+			ks = append(ks, a.key+"=empty")
+		}
+	}
+	return strings.Join(ks, ",")
 }
 
 func teAttrKeys(s teSpan) string {
@@ -1049,7 +1269,27 @@ func teTags(op *teOp) []string {
 		tags = append(tags, "resource-without-service-after-named-one")
 	}
 	if raw {
-		tags = append(tags, "documents-without-fields")
+		tags = append(tags, "documents-of-another-protocol")
+	}
+	for _, s := range recs {
+		if s.raw && s.durSpec != "" {
+			tags = append(tags, "document-with-unreadable-duration", "unreadable-duration/"+s.durSpec[:1])
+			break
+		}
+	}
+	if dup {
+		identical := map[string]int{}
+		for _, s := range recs {
+			if !s.raw {
+				identical[teSpanText(s)]++
+			}
+		}
+		for _, n := range identical {
+			if n > 1 {
+				tags = append(tags, "span-redelivered-identically")
+				break
+			}
+		}
 	}
 	switch n := len(perTrace); {
 	case n > 50:
@@ -1070,12 +1310,12 @@ func teTags(op *teOp) []string {
 		}
 	}
 	for _, s := range recs {
-		rej = rej || teSpanRejected(s)
+		rej = rej || teSpanBytesOrEmpty(s)
 		col = col || teSpanCollides(s)
 		wrap = wrap || s.end < s.start
 	}
 	if rej {
-		tags = append(tags, "rejected-attribute-kinds")
+		tags = append(tags, "bytes-or-empty-attribute")
 	}
 	if col {
 		tags = append(tags, "attribute-key-collides-with-span-field")
@@ -1227,11 +1467,11 @@ func (g *teGen) attrs() []teAttr {
 		case x < 29:
 			a.kind, a.i = 'd', int64(r.Intn(100))
 			a.s = strconv.FormatInt(a.i, 10)
-		case x < 32:
+		case x < 31:
 			a.kind = 'a'
-		case x < 35:
+		case x < 33:
 			a.kind = 'm'
-		case x < 37:
+		case x < 36:
 			a.kind = 'y'
 		case x < 38:
 			a.kind = 'z'
@@ -1432,7 +1672,11 @@ func teRawText(s teSpan) string {
 	if s.noStatus {
 		st = "!"
 	}
-	return strings.Join([]string{d(s.trace, false), d(s.sid, false), d(s.pid, s.noPid), d(s.svc, s.noSvc), d(s.name, s.noName), strconv.FormatUint(s.start, 10), strconv.FormatUint(s.end, 10), st}, ".")
+	f := []string{d(s.trace, false), d(s.sid, false), d(s.pid, s.noPid), d(s.svc, s.noSvc), d(s.name, s.noName), strconv.FormatUint(s.start, 10), strconv.FormatUint(s.end, 10), st}
+	if s.durSpec != "" {
+		f = append(f, s.durSpec)
+	}
+	return strings.Join(f, ".")
 }
 
 func teReqText(rq teReq) string {
@@ -1470,6 +1714,20 @@ func teLine(page int, pick int, reqs []teReq) string {
 	return fmt.Sprintf("te %d %d %s", page, pick, strings.Join(toks, "|"))
 }
 
+// a `duration` that no uint64 field can take: 2^64 as a float, negative, fractional, a string
+func (g *teGen) badDur() string {
+	r := g.r
+	switch r.Intn(4) {
+	case 0:
+		return "f"
+	case 1:
+		return "m" + strconv.Itoa(1+r.Intn(5000))
+	case 2:
+		return "h" + strconv.Itoa(r.Intn(5000))
+	}
+	return "t" + []string{"soon", "12ms", "x", "1s"}[r.Intn(4)]
+}
+
 // documents without required fields for trace `trace`, children of existing spans
 func (g *teGen) rawDocs(spans []teSpan, k int) teReq {
 	r := g.r
@@ -1477,7 +1735,7 @@ func (g *teGen) rawDocs(spans []teSpan, k int) teReq {
 	for i := 0; i < k; i++ {
 		p := spans[r.Intn(len(spans))]
 		e := teSpan{raw: true, trace: p.trace, sid: fmt.Sprintf("dd%04x", r.Intn(1<<16)), pid: p.sid, svc: fmt.Sprintf("s%d", 1+r.Intn(4)), name: "doc", start: p.start + 1000, end: p.start + 2001000, status: "1"}
-		switch r.Intn(7) {
+		switch r.Intn(10) {
 		case 0:
 			e.noSvc = true
 		case 1:
@@ -1491,6 +1749,8 @@ func (g *teGen) rawDocs(spans []teSpan, k int) teReq {
 			e.sid = p.sid
 			e.pid = spans[r.Intn(len(spans))].sid
 		case 5: // complete document (a span delivered through another protocol)
+		case 6, 7, 8: // complete document whose duration is not a uint64
+			e.durSpec = g.badDur()
 		default:
 			e.noSvc, e.noStatus = true, r.Intn(2) == 0
 		}
@@ -1519,6 +1779,18 @@ func genTraceE2E(r *rand.Rand, n int, tier string) []string {
 		fmt.Sprintf("te 1000 0 o:s1/%[1]s.01.-.a.%[2]d.%[3]d.1.-,%[4]s.02.-.b.%[2]d.%[3]d.1.-;s2/%[5]s.03.-.a.%[2]d.%[6]d.1.-,%[7]s.04.-.b.%[2]d.%[6]d.1.-", T(6), R, R+7300000, T(7), T(8), R+1900000, T(9)),
 		"te 1000 0 o:s1",
 		"te 1000 0 o:n/-",
+		// one document of another protocol with a duration that is not a uint64 next to two OTLP spans of two services:
+		// the dependency graph and the RED rows of the two spans must still be there (every kind of such a duration)
+		fmt.Sprintf("te 1000 0 o:s1/%[1]s.01.-.root.%[2]d.%[3]d.1.-;s2/%[1]s.02.01.child.%[4]d.%[5]d.2.-|r:%[1]s.dd01.01.s2.doc.%[4]d.%[5]d.1.m5", T(12), R, R+500000000, R+1000, R+2001000),
+		fmt.Sprintf("te 2 0 r:%[1]s.dd01.01.s2.doc.%[4]d.%[5]d.1.f|o:s1/%[1]s.01.-.root.%[2]d.%[3]d.1.-;s2/%[1]s.02.01.child.%[4]d.%[5]d.2.-|r:%[1]s.dd02.02.s3.doc.%[4]d.%[5]d.2.tsoon;%[1]s.dd03.02.s3.doc.%[4]d.%[5]d.1.h7", T(13), R, R+500000000, R+1000, R+2001000),
+		// … and a page that holds nothing but such documents must not end the paging loops (page of 1)
+		fmt.Sprintf("te 1 0 o:s1/%[1]s.01.-.root.%[2]d.%[3]d.1.-|r:%[1]s.dd01.01.s2.doc.%[4]d.%[5]d.1.m1|o:s2/%[1]s.02.01.child.%[4]d.%[5]d.2.-", T(14), R, R+500000000, R+1000, R+2001000),
+		// a two-span trace delivered twice (a retried export): still two spans, one of them an error
+		fmt.Sprintf("te 1000 0 o:s1/%[1]s.01.-.root.%[2]d.%[3]d.1.-,%[1]s.02.01.a.%[2]d.%[3]d.2.-|o:s1/%[1]s.01.-.root.%[2]d.%[3]d.1.-,%[1]s.02.01.a.%[2]d.%[3]d.2.-", T(15), R, R+7000000),
+		// the same span id once with status OK and once with status ERROR (conflicting deliveries)
+		fmt.Sprintf("te 1000 0 o:s1/%[1]s.01.-.root.%[2]d.%[3]d.1.-,%[1]s.02.01.a.%[2]d.%[3]d.2.-|o:s1/%[1]s.02.01.a.%[2]d.%[3]d.1.-", T(16), R, R+7000000),
+		// root with an empty-valued attribute, child with a bytes-valued one: both are legal OTLP, the trace is complete
+		fmt.Sprintf("te 1000 0 o:s1/%[1]s.01.-.root.%[2]d.%[3]d.1.k=z,%[1]s.02.01.a.%[2]d.%[3]d.2.k=y+status=y,%[1]s.03.02.b.%[2]d.%[3]d.1.-", T(17), R, R+7000000),
 		// malformed op lines: both sides answer bad-op
 		"te 0 0 o:s1",
 		"te 1000 0 x:s1",
@@ -1528,6 +1800,9 @@ func genTraceE2E(r *rand.Rand, n int, tier string) []string {
 		fmt.Sprintf("te 1000 0 o:s1/%s.01.-.root.%d.%d.1.name=i5", T(10), R, R+5),
 		fmt.Sprintf("te 1000 0 o:s1/%s.01.-.root.0%d.%d.1.-", T(10), R, R+5),
 		fmt.Sprintf("te 1000 0 r:%s.01.-.s1.root.%d.%d", T(10), R, R+5),
+		fmt.Sprintf("te 1000 0 r:%s.01.-.s1.root.%d.%d.1.t12", T(10), R, R+5),
+		fmt.Sprintf("te 1000 0 r:%s.01.-.s1.root.%d.%d.1.m0", T(10), R, R+5),
+		fmt.Sprintf("te 1000 0 r:%s.01.-.s1.root.%d.%d.1.q", T(10), R, R+5),
 	}
 	{ // one trace larger than the real page in EVERY run: 1001..1100 spans, three of its 6..9 batches delivered twice
 		nsp := 1001 + r.Intn(100)
@@ -1651,6 +1926,44 @@ func genTraceE2E(r *rand.Rand, n int, tier string) []string {
 				reqs = append(reqs, reqs[0])
 			}
 			out = append(out, teLine(1000, 0, reqs))
+		case x < 92: // documents of another protocol whose duration is not a uint64, next to OTLP spans of several services
+			ntr := 1 + r.Intn(3)
+			var spans []teSpan
+			for t := 0; t < ntr; t++ {
+				f := g.forest(newTrace(), 2+r.Intn(9), uint64(1+t*1000), 8, 2+r.Intn(3))
+				for i := range f {
+					f[i].attrs = nil
+				}
+				spans = append(spans, f...)
+			}
+			var docs []teSpan
+			docBase := r.Intn(1 << 15)
+			for k := 1 + r.Intn(3); k > 0; k-- {
+				p := spans[r.Intn(len(spans))]
+				e := teSpan{raw: true, trace: p.trace, sid: fmt.Sprintf("dd%04x", docBase+k), pid: p.sid, svc: fmt.Sprintf("s%d", 1+r.Intn(4)), name: "doc", start: p.start + 1000, end: p.start + 2001000,
+					status: []string{"1", "2"}[r.Intn(2)], durSpec: g.badDur()}
+				if r.Intn(4) == 0 {
+					e.pid = "" // a root that no view can read
+				}
+				docs = append(docs, e)
+			}
+			if r.Intn(3) == 0 { // a proper span whose parent is such a document
+				i := r.Intn(len(spans))
+				if spans[i].pid != "" {
+					spans[i].pid = docs[0].sid
+				}
+			}
+			reqs := g.split(spans, 1+r.Intn(3))
+			for len(docs) > 0 { // the documents in one or several bulk requests, anywhere between the OTLP requests
+				k := 1 + r.Intn(len(docs))
+				at := r.Intn(len(reqs) + 1)
+				reqs = append(reqs[:at], append([]teReq{{raw: true, ev: docs[:k]}}, reqs[at:]...)...)
+				docs = docs[k:]
+			}
+			if r.Intn(3) == 0 {
+				reqs = append(reqs, reqs[r.Intn(len(reqs))]) // a re-sent request
+			}
+			out = append(out, teLine([]int{1000, 1, 2, 3, 5}[r.Intn(5)], r.Intn(3), reqs))
 		default: // anything: mixed
 			spans := g.forest(newTrace(), 1+r.Intn(25), uint64(1+r.Intn(1000)), []int{8, 8, 4, 1}[r.Intn(4)], 1+r.Intn(4))
 			if len(spans) > 200 {
